@@ -53,11 +53,18 @@ def sh(cmd, cwd=None, timeout=1800, env=None):
 
 # ------------------------------------------------------------------ build
 def coq_sources():
-    out = []
-    for root, _, files in os.walk(COQ):
-        for f in files:
-            if f.endswith('.v'):
-                out.append(os.path.join(root, f))
+    """The Coq sources of the development: what _CoqProject lists, the extraction file, and the props
+    files compiled per run (files somebody is still writing next to them are not part of it)."""
+    out = set()
+    with open(os.path.join(COQ, '_CoqProject')) as fh:
+        for line in fh:
+            line = line.strip()
+            if line.endswith('.v'):
+                out.add(os.path.join(COQ, line))
+    out.add(os.path.join(EXTRACT, 'Extract.v'))
+    for f in os.listdir(os.path.join(COQ, 'props')):
+        if f.endswith('.v'):
+            out.add(os.path.join(COQ, 'props', f))
     return sorted(out)
 
 
@@ -291,9 +298,9 @@ def guarded(fn, *a):
 
 # ------------------------------------------------------------------ cases, verdict
 class Case:
-    __slots__ = ('comp', 'cmd', 'impl', 'domain', 'desc', 'nontrivial', 'kind')
+    __slots__ = ('comp', 'cmd', 'impl', 'domain', 'desc', 'nontrivial', 'kind', 'proj')
 
-    def __init__(self, comp, cmd, impl, desc, domain=True, nontrivial=True, kind=''):
+    def __init__(self, comp, cmd, impl, desc, domain=True, nontrivial=True, kind='', proj=None):
         self.comp = comp          # component / suite name
         self.cmd = cmd            # driver command line (model evaluation)
         self.impl = impl          # canonical result string of the implementation
@@ -301,6 +308,7 @@ class Case:
         self.domain = domain      # inside the property's domain (a theorem covers it)?
         self.nontrivial = nontrivial
         self.kind = kind          # generator class, for the input distribution
+        self.proj = proj          # projection applied to the model output (the property's observable)
 
 
 class Result:
@@ -337,6 +345,11 @@ class Result:
             self.kinds[c.kind or c.comp] = self.kinds.get(c.kind or c.comp, 0) + 1
             if c.nontrivial:
                 self.distinct.add(hashlib.md5((c.comp + '|' + c.cmd).encode()).digest())
+            if c.proj is not None:
+                try:
+                    o = c.proj(o)
+                except Exception as e:
+                    o = f'#unparsable model output ({e!r}): ' + o[:200]
             if o.rstrip() != c.impl.rstrip():
                 self.disagreements.append((c, o))
         step = sample_every or max(1, len(cases) // 3)
